@@ -85,7 +85,8 @@ def gen_action(rng, kind, depth):
     if kind in ("setres", "setexc", "cancelfut", "addcb", "cancel", "cscancel"):
         return [kind, rng.randrange(6)]
     if kind == "throw":
-        return ["throw", rng.randrange(6), int(rng.random() < 0.5)]
+        t, r = rng.randrange(6), rng.random()
+        return ["throw", t, 1 if r < 0.5 else (2 if r > 0.88 else 0)]    # 2: a StopIteration instance
     if kind == "nocancel":
         return ["nocancel", rng.randrange(6), int(rng.random() < 0.75)]
     if kind == "throwcls":
@@ -103,7 +104,8 @@ def gen_prog(rng, depth=0):
         if k in ("w", "y"):
             prog.append([k, rng.randrange(6)])
         elif k == "i":
-            prog.append(["i", rng.randrange(6), int(rng.random() < 0.5)])
+            t, r = rng.randrange(6), rng.random()
+            prog.append(["i", t, 1 if r < 0.5 else (2 if r > 0.88 else 0)])
         elif k == "icls":
             prog.append(["icls", rng.randrange(6), int(rng.random() < 0.5)])
         elif k == "a":
@@ -184,9 +186,18 @@ def my_problems(w, kinds=C09_KINDS):
     return [p for p in w.problems if p["kind"].startswith(kinds)]
 
 
+class Rec:
+    """what is kept of a finished run: the World itself (loop, tasks, coroutines) is dropped at once - thousands
+    of dead tasks kept alive make every later `asyncio.all_tasks()` (a scan of one global WeakSet) slow"""
+
+    def __init__(self, w):
+        self.case, self.lines, self.tags, self.problems, self.kinds = w.case, w.lines, w.tags, w.problems, w.kinds
+        self.log = w.log
+
+
 def run_world(case):
     try:
-        return K.run_case(case)
+        return Rec(K.run_case(case))
     except K.HarnessBug as e:
         raise core.InfraError(f"harness bug on case {json.dumps(case)[:400]}: {e!r}")
 
@@ -399,6 +410,26 @@ def gen_gather_case(rng):
     return {"cfg": cfg, "script": script, "rich": True}
 
 
+def gen_long_queue_cases(sizes, cfgs=("stock", "sched", "prio")):
+    """Deterministic, size-parametrised: n freshly created tasks (every third a C task, a plain callback and a
+    queued task.cancel in between) = a ready queue of n+2 handles; one observation checks ready_find /
+    task_is_runnable / the partition for the task at *every* position at once; then a few steps, observing
+    while the queue drains past any size threshold."""
+    out = []
+    for cfg in cfgs:
+        for n in sizes:
+            script = []
+            for i in range(n):
+                script.append(["create", "c" if i % 3 == 2 else "p", [["s"]], "all"])
+                if i == n // 2:
+                    script.append(["cscb"])
+                    script.append(["cscancel", 0])
+            k = len(script)
+            script += [["obs"], ["resume"]] + [["step"]] * 6 + [["pause"], ["obs"]]
+            out.append({"cfg": cfg, "script": script, "no_obs_until": k, "no_throw_on_blocked_cancel_pending": True})
+    return out
+
+
 def corpus_cases(prop):
     d = core.ROOT / "corpus" / prop
     out = []
@@ -414,6 +445,8 @@ def run(ctx):
     corpus = corpus_cases(PROP)
     explore(ctx, [c for c in corpus if not c.get("rich")], label="corpus: ")
     explore_untraced(ctx, [c for c in corpus if c.get("rich")], label="corpus: ")
+    explore(ctx, gen_long_queue_cases(range(15, 42) if ctx.thorough() else (15, 16, 17, 18, 24, 33, 40)),
+            label="long queue: ")
     n = 2500 if ctx.thorough() else 260
     n_gather = 3000 if ctx.thorough() else 200
     batch = 130 if not ctx.thorough() else 500
